@@ -1791,10 +1791,10 @@ mut2(
     base="C18_w3_2",
 )
 mut2(
-    "c17-delegate-helper-then-fed-from-input-mapping",
+    "c17-delegate-helper-then-fed-from-the-output-filename",
     "C17",
     "C17.exec",
-    [{"file": "cdd/compound/gen.py", "old": "        imports: str = _imports_from_file(imports_from_file, extra_symbols)\n", "new": "        imports: str = _imports_from_file(imports_from_file or input_mapping, extra_symbols)\n"}],
+    [{"file": "cdd/compound/gen.py", "old": "        imports: str = _imports_from_file(imports_from_file, extra_symbols)\n", "new": "        imports: str = _imports_from_file(imports_from_file or output_filename, extra_symbols)\n"}],
     base="C19_w3_2",
 )
 mut2(
@@ -1816,4 +1816,128 @@ mut2(
         }
     ],
     base="C06_w3_2",
+)
+# ------------------------------------------------------------------ the defects repaired in the round-4 session, re-introduced
+mut2(
+    "c14-nullable-popped-behind-an-or-again",
+    "C14",
+    "C14.translate",
+    [
+        {"file": "cdd/json_schema/utils/parse_utils.py", "old": '    nullable: bool = _param.pop("nullable", False)\n', "new": ""},
+        {"file": "cdd/json_schema/utils/parse_utils.py", "old": "        or nullable\n", "new": '        or _param.pop("nullable", False)\n'},
+    ],
+    mention=("nullable",),
+)
+mut(
+    "c19-inferred-imports-splatted-without-none-filter",
+    "C19",
+    "C19.imports",
+    "cdd/compound/gen_utils.py",
+    "chain(*filter(None, map(infer_imports, functions_and_classes)))",
+    "chain(*map(infer_imports, functions_and_classes))",
+    mention=("None",),
+)
+mut(
+    "c19-inferred-imports-joined-by-a-space",
+    "C19",
+    "C19.imports",
+    "cdd/compound/gen_utils.py",
+    '            "\\n".join(\n                map(\n                    to_code,\n',
+    '            " ".join(\n                map(\n                    to_code,\n',
+    mention=("joined",),
+)
+mut(
+    "c05-hybrid-assignment-handed-to-the-table-parser",
+    "C05",
+    "C05.hybrid",
+    "cdd/sqlalchemy/parse.py",
+    "        table.value if isinstance(table, Assign) else table\n",
+    "        table\n",
+    mention=("__table__",),
+)
+mut(
+    "c05-id-column-looked-up-in-the-wrong-mapping",
+    "C05",
+    "C05.pk",
+    "cdd/sqlalchemy/utils/emit_utils.py",
+    '        elif "id" in params:\n',
+    '        elif "id" in intermediate_repr.get("params", iter(())):\n',
+    mention=("mapping",),
+)
+mut(
+    "c03-exmod-pydantic-name-keyword-dropped-from-the-table",
+    "C03",
+    "C03.dispatch",
+    "cdd/compound/exmod_utils.py",
+    '                        "pydantic": "class",\n',
+    "",
+    mention=("pydantic_name",),
+)
+mut(
+    "c16-class-schema-key-recapitalised",
+    "C16",
+    "C16.keys",
+    "cdd/compound/openapi/gen_openapi.py",
+    "                                else (node.name, cdd.sqlalchemy.parse.sqlalchemy(node))\n",
+    "                                else (node.name.title(), cdd.sqlalchemy.parse.sqlalchemy(node))\n",
+    mention=("title",),
+)
+mut(
+    "c16-routes-appended-without-leading-newline",
+    "C16",
+    "C16.append",
+    "cdd/compound/openapi/gen_routes.py",
+    '        f.write("\\n\\n")\n',
+    "",
+    mention=("glued",),
+)
+mut(
+    "c12-missing-file-created-without-name-options",
+    "C12",
+    "C12.create",
+    "cdd/shared/conformance.py",
+    "                **_default_options(node=None, search=search, type_wanted=type_wanted)()\n",
+    "",
+    mention=("_default_options",),
+)
+mut(
+    "c02-default-classified-by-exact-type",
+    "C02",
+    "C02.exacttype",
+    "cdd/shared/ast_utils.py",
+    '                        or isinstance(_param["default"], (float, int, str))\n',
+    '                        or type(_param["default"]) in (float, int, str)\n',
+    mention=("bool",),
+)
+mut(
+    "c13-receiver-added-back-for-self-only",
+    "C13",
+    "C13.index",
+    "cdd/shared/ast_utils.py",
+    '                            and node.args.args[0].arg in frozenset(("self", "cls"))\n',
+    '                            and node.args.args[0].arg == "self"\n',
+    mention=("receiver",),
+)
+mut(
+    "c11-loop-until-a-function-stops-finding-its-marker",
+    "C11",
+    "C11.progress",
+    "cdd/shared/defaults_utils.py",
+    """        _param["doc"] = extract_default(
+            _param["doc"], emit_default_doc=emit_default_doc
+        )[0]
+""",
+    """        while "Defaults" in _param["doc"] or "defaults" in _param["doc"]:
+            _param["doc"] = extract_default(
+                _param["doc"], emit_default_doc=emit_default_doc
+            )[0]
+""",
+)
+mut(
+    "c05-fk-marker-cut-with-a-character-set",
+    "C05",
+    "C05.strip",
+    "cdd/sqlalchemy/utils/emit_utils.py",
+    '        fk_val: str = _param["doc"][len("[FK(") : end - len(")]")]\n',
+    '        fk_val: str = _param["doc"][: end - len(")]")].lstrip("[FK(")\n',
 )
